@@ -17,18 +17,19 @@ import (
 
 // Config of one sequential history.
 type Config struct {
-	Seed       int64
-	Steps      int
-	MaxConns   int
-	MaxSess    int
-	Mods       string
-	Profile    string
-	CheckEvery int
-	Flags      []string // DISABLE_* flags for every connection of this history
-	Avoid      []string
-	Census     bool // goroutine census at the end (costly)
-	Groups     int  // see Gen.Groups
-	Record     bool // record actions and per-step windows (differential runs)
+	Seed              int64
+	Steps             int
+	MaxConns          int
+	MaxSess           int
+	Mods              string
+	Profile           string
+	CheckEvery        int
+	Flags             []string // DISABLE_* flags for every connection of this history
+	Avoid             []string
+	Census            bool    // goroutine census at the end (costly)
+	Groups            int     // see Gen.Groups
+	ProbeAfterRefusal float64 // probability of probing the session right after a refused request (C04: a refused request changes nothing)
+	Record            bool    // record actions and per-step windows (differential runs)
 }
 
 func (c Config) String() string {
@@ -130,6 +131,7 @@ type Runner struct {
 	cur          string // kind of the action in progress (trigger class of a failure)
 	curReason    string
 	tags         map[int64]tagInfo // every request issued, by its unique origin tag
+	afterRefusal string            // set while the probe that follows a refused request runs
 	// differential runs
 	Script  []Action                 // when set, executed instead of generated actions
 	Actions []Action                 // executed actions (Record)
@@ -166,6 +168,10 @@ func (r *Runner) fail(v model.Violation, extra string) {
 	if r.flagged() {
 		v.Props = append(append([]string(nil), v.Props...), "C17")
 	}
+	if r.afterRefusal != "" {
+		v.Props = append(append([]string(nil), v.Props...), "C04")
+		v.Detail = "right after the refused request [" + r.afterRefusal + "] (a refused request changes nothing): " + v.Detail
+	}
 	trig := r.cur
 	if r.curReason != "" {
 		trig += ":" + strings.ReplaceAll(strings.TrimSpace(r.curReason), " ", "-")
@@ -187,6 +193,7 @@ func (r *Runner) Run() {
 		every = 7
 	}
 	r.G.Groups = r.Cfg.Groups
+	r.G.NoDeadSIDs = r.Cfg.Record
 	r.created = map[[2]int]string{}
 	r.sidRef = map[string][2]int{}
 	r.Rec = map[int]map[int][]string{}
@@ -223,6 +230,7 @@ func (r *Runner) Run() {
 		r.Stats.Steps++
 		r.Stats.Kinds[a.Kind]++
 		r.exec(a)
+		r.maybeProbeAfterRefusal(a)
 		if r.Fail == nil && r.Inconclusive == "" && (step+1)%every == 0 {
 			r.checkpoint()
 		}
@@ -1149,4 +1157,35 @@ next:
 		out = append(out, p)
 	}
 	return out
+}
+
+// maybeProbeAfterRefusal: right after a refused request of a joined member a
+// fresh connection joins the member's session, is handed its state (compared
+// with the model by Model.Step) and leaves again.
+func (r *Runner) maybeProbeAfterRefusal(a Action) {
+	if r.Script != nil || r.Cfg.ProbeAfterRefusal <= 0 || r.Fail != nil || r.Inconclusive != "" || a.Req == nil || r.curReason == "" {
+		return
+	}
+	mc := r.M.Conns[a.Conn]
+	if mc == nil || mc.Dead || mc.Sess == nil || len(r.G.liveConns()) >= r.Cfg.MaxConns+2 {
+		return
+	}
+	if r.G.R.Float64() >= r.Cfg.ProbeAfterRefusal {
+		return
+	}
+	sid := mc.Sess.SID
+	r.afterRefusal = fmt.Sprintf("c%d %s", a.Conn, a.Req)
+	defer func() { r.afterRefusal = "" }()
+	r.G.nextConn++
+	id := r.G.nextConn + 2000
+	r.exec(Action{Kind: "open", Conn: id})
+	if r.Fail != nil || r.Inconclusive != "" {
+		return
+	}
+	r.Stats.Marks["probe-after-refusal"]++
+	r.request(Action{Kind: "join", Conn: id, Req: &model.Req{Kind: "join", SID: sid, Tag: d.NewTag()}})
+	if r.Fail != nil || r.Inconclusive != "" {
+		return
+	}
+	r.exec(Action{Kind: "close", Conn: id, Req: &model.Req{Kind: "close", How: "fin"}})
 }
